@@ -76,6 +76,7 @@ def main() -> int:
 
     _, chunks = ormrun.run_pool(orm.check_scalar, muts + items, PID, pre, after_pre)
     results = [r for ch in chunks for r in ch]
+    results += [r for r in orm.inlist_sweep() if r["backend"] in BACKENDS]      # structural: long in-lists arrive complete
     selftest_orm.ingest(run, [r for r in results if r.get("family") == "selftest"])
     results = [r for r in results if r.get("family") != "selftest"]
     run.bounds = {
